@@ -350,6 +350,47 @@ fn def_f64(case: &Case) -> Verdict {
     }
 }
 
+/// the same averages over an inner view that withholds its first k inputs (a warming-up inner view): the average must ignore
+/// the updates during which it was delivered nothing and then follow its definition on the delivered values
+fn gated_case() -> impl Fn(Tier) -> BoxedStrategy<Case> + Send + Sync {
+    move |_t: Tier| ma_spec().prop_flat_map(|(spec, _)| (ma_stream(&spec, false), 1i64..=9).prop_map(move |(xs, k)| Case { spec: Some(spec.clone()), xs, ints: vec![k], a: Rat(1, 1), ..Default::default() })).boxed()
+}
+fn gated_check(case: &Case) -> Verdict {
+    use sliding_features::View;
+    let spec = case.spec();
+    let name = vname(spec);
+    let k = case.ints[0] as usize;
+    let h = bigs(&case.xs);
+    // reference: the plain view over Echo fed only the delivered values
+    let plain = run_q(spec, &h);
+    let mut v = build_gated::<q::Q>(spec, k);
+    let before = v.last().map(|o| o.extract());
+    // k withheld inputs (arbitrary values), then the stream
+    for j in 0..k {
+        v.update(qv(&R::from_integer(((j as i64 + 1) * 1000).into())));
+        let now = v.last().map(|o| o.extract());
+        if now != before {
+            return Verdict::fail(format!("C04/gated/Q|{name}|changed_while_undelivered"), format!("{} over a leaf withholding its first {k} inputs: answer changed from {} to {} at withheld update {}", spec.show(), show_opt(&before), show_opt(&now), j + 1));
+        }
+    }
+    for (t, x) in h.iter().enumerate() {
+        v.update(qv(x));
+        let got = v.last().map(|o| o.extract());
+        let same = match (&got, &plain[t]) {
+            (None, None) => true,
+            (Some(a), Some(b)) => match (a.fin(), b.fin()) {
+                (Some(a), Some(b)) => abs_diff(a, b) <= tol_q(&(b.abs() + R::one())),
+                _ => a == b,
+            },
+            _ => false,
+        };
+        if !same {
+            return Verdict::fail(format!("C04/gated/Q|{name}|value"), format!("{} over a leaf withholding its first {k} inputs: after {} delivered values it reports {} but the same average fed only the delivered values reports {}; delivered {}", spec.show(), t + 1, show_opt(&got), show_opt(&plain[t]), show_rats(&case.xs)));
+        }
+    }
+    Verdict::pass(case.xs.len() > window_of(spec), vec![name.to_string()])
+}
+
 pub fn clauses() -> Vec<Clause> {
     let gen_rule = "view drawn from Sma(N), Ema(N), Ema::with_alpha(N, alpha = (N+1) j/8, j = 1..8), Alma(N), Alma::new_custom(N, sigma in {0.5,1,2,4,6,8,12}, offset in {0,.25,.5,.85,1}), N in 1..40; grammar stream of 0..4N+8 values (zeros, sign changes, ties, flats) optionally prefixed so that the EMA state is exactly 0 (first value 0; [2k, -k(N-1)]; [k,-k,0,0]).";
     vec![
@@ -362,6 +403,7 @@ pub fn clauses() -> Vec<Clause> {
         Clause::generated("C04", "C04/Ema/definition/Q", format!("{gen_rule} Oracle: e_0 = x_0, e_t = w x_t + (1-w) e_(t-1), w = alpha/(N+1), nothing before N values, every step. Non-trivial: >= N+2 steps after readiness; label state_hits_zero."), 2500, 60_000, def_case(false, false), def_q).with_shard(150),
         Clause::generated("C04", "C04/Ema/definition/f64", "same on decimal grids, tolerance 1e-9 x largest magnitude.", 2500, 60_000, def_case(false, true), def_f64).with_shard(300),
         Clause::generated("C04", "C04/Alma/definition/Q", format!("{gen_rule} Oracle: sum w_k x_k / sum w_k over window positions k = 0 (oldest) .. n-1, w_k = exp(-(k - offset (N+1))^2 / (2 (N/sigma)^2)) with the exact scalar's exp; every step. Non-trivial: >= N+2 evictions; label slid_by_more_than_2N."), 2500, 60_000, def_case(true, false), def_q).with_shard(100),
+        Clause::generated("C04", "C04/gated/Q", format!("{gen_rule} The view sits over a leaf that withholds its first k in 1..9 inputs (a warming-up inner view). Oracle: its answer does not change during the k withheld updates, and afterwards it equals, step by step, the same average over Echo fed only the delivered values. Non-trivial: the window slid."), 2000, 50_000, gated_case(), gated_check).with_shard(150),
         Clause::generated("C04", "C04/Alma/definition/f64", "same on decimal grids, tolerance 1e-9 x largest magnitude.", 2500, 60_000, def_case(true, true), def_f64).with_shard(300),
     ]
 }
